@@ -60,7 +60,19 @@ def call(c):
         eps = span / 1024.0 if span > 0 else 1.0 / 1024
         extra = list(bk64[k - 1:nc + 1]) + [bk64[k - 1] - eps, bk64[nc] + eps] + \
             [float(t) + eps / 8 for t in bk64[k - 1:nc + 1]] + [float(t) - eps / 8 for t in bk64[k - 1:nc + 1]]
-        xe = np.array(list(c['xe']) + [float(v) for v in extra], dtype='d')
+        if c.get('sparse'):
+            # sparse evaluation set: only the harness's points (placed relative to the real knots when asked)
+            pts = list(c['xe'])
+            if c['sparse'] == 'one-per-interval':
+                pts = [float(0.5 * (bk64[j] + bk64[j + 1])) for j in range(k - 1, nc)][::max(1, int(c.get('stride', 1)))]
+            elif c['sparse'] == 'isolated-min':
+                j0 = k - 1 + int(c.get('first', 0)) % max(1, nc - k + 1)
+                pts = [float(0.25 * bk64[j0] + 0.75 * bk64[j0 + 1])] + \
+                    [float(bk64[j] + f * (bk64[j + 1] - bk64[j])) for j in range(j0 + 1, nc) for f in (0.25, 0.5)][:6]
+            extra = []
+            xe = np.array(pts, dtype='d')
+        else:
+            xe = np.array(list(c['xe']) + [float(v) for v in extra], dtype='d')
         keys = c.get('keys')
         if keys is None:
             xe = np.sort(xe)
